@@ -138,6 +138,10 @@ PROPS = {
          "checks": {Q: 6000, T: 480000}, "shards": {Q: 2, T: 16}},
         {"name": "reconcilers", "pkg": "internal/k8s/controllers", "run": "^TestVerifC18Reconcilers$",
          "checks": {Q: 6000, T: 480000}, "shards": {Q: 2, T: 16}},
+        {"name": "controller", "pkg": "controller", "run": "^TestVerifC18Ctrl$",
+         "checks": {Q: 6000, T: 480000}, "shards": {Q: 2, T: 16}},
+        {"name": "speaker", "pkg": "speaker", "run": "^TestVerifC18Spk$",
+         "checks": {Q: 4000, T: 400000}, "shards": {Q: 2, T: 16}},
     ]},
     "C16": {"engines": [
         {"name": "update", "pkg": "internal/bgp/native", "run": "^TestVerifC16Update$",
